@@ -16,6 +16,14 @@ fn main() {
             "--out" => { out = args[i + 1].clone(); i += 1 }
             "--n" => { n = args[i + 1].parse().unwrap(); i += 1 }
             "--replay" => { replay = Some(args[i + 1].clone()); i += 1 }
+            "--dump-history" => {
+                // debugging aid: write the replayable form of history I of this seed and exit
+                let idx: usize = args[i + 1].parse().unwrap();
+                std::fs::create_dir_all(&out).unwrap();
+                let v = engine_stream::dump_history(&mut Rng::from_env(), idx);
+                std::fs::write(format!("{}/history_{}.json", out, idx), serde_json::to_string(&v).unwrap()).unwrap();
+                return;
+            }
             _ => {}
         }
         i += 1;
